@@ -646,11 +646,19 @@ def rule_l4(chk: Check, ix: Index):
     why = ""
     try:
         seen_case = False
-        for pth in stmt_paths(tail, opaque_loops=True):
+        all_paths = stmt_paths(tail, opaque_loops=True)
+        # the value that means "end of input" to the caller is whatever the empty-line path returns (that this value leaves the
+        # line loop is T2's obligation); the spelling of that value (False, an enum member, ...) is immaterial here
+        eof_vals = {pth[-1][2] for pth in all_paths if pth[-1][1] == "return" and
+                    ({x[1]: x[2] for x in pth if x[0] == "cond"}.get("state.line") is False or
+                     {x[1]: x[2] for x in pth if x[0] == "cond"}.get("state.line == ''") is True)}
+        if len(eof_vals) != 1:
+            eof_vals = {"False"}
+        for pth in all_paths:
             conds = {x[1]: x[2] for x in pth if x[0] == "cond"}
             if conds.get("state.pos == state.max") is True or conds.get("state.pos >= state.max") is True:
                 seen_case = True
-                if any(x[0] == "do" and "yield" in x[1] for x in pth) or pth[-1][1] != "return" or pth[-1][2] != "False":
+                if any(x[0] == "do" and "yield" in x[1] for x in pth) or pth[-1][1] != "return" or pth[-1][2] not in eof_vals:
                     why = "a token is emitted (or the scan goes on) for it"
         if not seen_case:
             why = "the case `state.pos == state.max` is not told apart from a blank or comment line"
